@@ -1,3 +1,3 @@
-OPEN "pre.txt" FOR RANDOM AS #2 LEN = 4
-FIELD #2, 4 AS F2$
-PRINT EOF(1)
+OPEN "pre.txt" FOR APPEND AS #1
+PRINT #1, "p" + CHR$(200) + "q"
+PRINT EOF(2)
